@@ -53,9 +53,13 @@ var c13Ext = []extCase{
 	{"pmd+other-extension", []string{"permessage-deflate, superspeed"}, [3]int{0, 0, 0}},
 	{"other-extension-first", []string{"superspeed, permessage-deflate"}, [3]int{0, 0, 0}},
 	{"pmd-twice", []string{"permessage-deflate", "permessage-deflate"}, [3]int{0, 0, 0}},
+	// a flag parameter that carries a value is not the flag (RFC 7692 7.1: the parameters take no value)
+	{"pmd+s=0", []string{"permessage-deflate; server_no_context_takeover=0"}, [3]int{0, 0, 0}},
+	{"pmd+c=false", []string{"permessage-deflate; client_no_context_takeover=false"}, [3]int{0, 0, 0}},
+	{"pmd+c=", []string{"permessage-deflate; client_no_context_takeover="}, [3]int{0, 0, 0}},
 }
 
-var c13Requested = [][]string{nil, {"chat"}, {"chat", "v2.proto"}}
+var c13Requested = [][]string{nil, {"chat"}, {"chat", "v2.proto"}, {"Chat.V2", "base64url.bearer.TOKEN-AbC"}}
 
 // (the last four are pieces of requested names or of the requested list as a whole: asked for by nobody)
 var c13SubResp = []string{"", "chat", "v2.proto", "zzz", "CHAT", "chat, v2.proto", "cha", "v2", "proto", "chat,v2.proto"}
@@ -64,7 +68,7 @@ func init() {
 	fw.Register(&fw.Prop{
 		ID:    "C13",
 		Level: "exploration",
-		Rule: "cases = the FULL cross product of a response grammar answered by a recording RoundTripper: status (11) x Connection variants (12) x Upgrade variants (9) x Sec-WebSocket-Accept variants (6: right, for another key, absent, case changed, empty, duplicated) x subprotocol answers (10, four of them pieces of requested names) x extension headers (13) x client compression mode (3) x requested subprotocol lists (3); " +
+		Rule: "cases = the FULL cross product of a response grammar answered by a recording RoundTripper: status (11) x Connection variants (12) x Upgrade variants (9) x Sec-WebSocket-Accept variants (6: right, for another key, absent, case changed, empty, duplicated) x subprotocol answers (10, four of them pieces of requested names) x extension headers (16, three with a flag parameter that carries a value) x client compression mode (3) x requested subprotocol lists (4, one with mixed-case names); " +
 			"every Dial's request is inspected (GET, Connection/Upgrade/version headers, 16 byte base64 key unique across all dials of the process, subprotocol and extension offer per mode, caller headers and Host override preserved, caller's header map unchanged, ws/wss/http/https). The oracle is an independent predicate over the generated response. distinct key = (must-connect?, first failing requirement, mode, subprotocol relation, extension case)",
 		Exhaustive:  func(string) bool { return true },
 		Gen:         c13Gen,
